@@ -113,11 +113,12 @@ Section DropWeak.
   (** all Weak fields are dropped, then cleared *)
   Lemma Cur_drop_wfields b n E0 ex m0 E W m o x :
     Cur K b n E0 ex m0 E W m -> get m o = Some x -> (o_box x <> BNotYet \/ o_vst x = VDropping) ->
+    (o_vst x <> VUninit \/ ex = Some o) ->
     Cur K b n E0 ex m0 E W
         (upd o (fun x => x <| o_wfields ::= fmap (fun _ => None) |>)
              (fold_left (fun m w => weak_drop_opt w m) (o_wfields x) m)).
   Proof.
-    intros C Hx Hbx. pose proof (cur_inv _ _ _ _ _ _ _ _ _ C) as HI.
+    intros C Hx Hbx Hnu. pose proof (cur_inv _ _ _ _ _ _ _ _ _ C) as HI.
     set (F := fun y : obj => y <| o_wfields ::= fmap (fun _ => None) |>).
     assert (C1 : Cur K b n E0 ex m0 E (wl (o_wfields x) ++ W) (upd o F m)).
     { eapply (Cur_wmove K b n E0 ex m0 E W (wl (o_wfields x) ++ W) m _ o F C); try reflexivity.
@@ -218,27 +219,29 @@ Section Rebase.
   Qed.
 
   Lemma ObjFr_close E o m m' x x' :
-    ObjFr E (Some o) m m' o x x' -> o_box x <> BNotYet -> o_vst x <> VDropping -> o_vst x' <> VDropping ->
+    ObjFr E (Some o) m m' o x x' -> o_box x <> BNotYet -> o_vst x <> VDropping -> o_vst x <> VUninit -> o_vst x' <> VDropping ->
     (o_box x = BAlloc -> ~ protected E m o x) -> ObjFr E None m m' o x x'.
   Proof.
-    intros [F1 F2 F3 F4 F5 F6 F7 F8 F8' F9 F10] Hb Hv Hv' Hp. split; auto; try congruence; try tauto.
+    intros [F1 F2 F3 F4 F5 F6 F7 F8 F8' Fu Fn F9 F10] Hb Hv Hnu Hv' Hp. split; auto; try congruence; try tauto.
   Qed.
 
   Lemma Cur_close_ex b n E0 o m0 E W m :
     Cur K b n E0 (Some o) m0 E W m ->
     (forall x x', get m0 o = Some x -> get m o = Some x' ->
-       o_box x <> BNotYet /\ o_vst x <> VDropping /\ o_vst x' <> VDropping /\ (o_box x = BAlloc -> ~ protected E0 m0 o x)) ->
+       o_box x <> BNotYet /\ o_vst x <> VDropping /\ o_vst x <> VUninit /\ o_vst x' <> VDropping /\
+       (o_box x = BAlloc -> ~ protected E0 m0 o x)) ->
     Cur K b n E0 None m0 E W m.
   Proof.
     intros [C1 C2 C3 C4] Ho. split; auto.
-    destruct C3 as [F1 F2 F3 F4]. split; auto.
+    destruct C3 as [F1 Fw F2 F3 F4]. split; auto.
     intros o' x Hx. destruct (F3 o' x Hx) as (x' & Hx' & OF). exists x'. split; [exact Hx'|].
     destruct (decide (o' = o)) as [->|Hne].
-    - destruct (Ho x x' Hx Hx') as (H1 & H2 & H3 & H4). apply ObjFr_close; auto.
-    - destruct OF as [G1 G2 G3 G4 G5 G6 G7 G8 G8' G9 G10]. split; auto.
+    - destruct (Ho x x' Hx Hx') as (H1 & H2 & H2' & H3 & H4). apply ObjFr_close; auto.
+    - destruct OF as [G1 G2 G3 G4 G5 G6 G7 G8 G8' Gu Gn G9 G10]. split; auto.
       + intros Hb Hv _. apply G7; auto. congruence.
       + intros Hv _. apply G8; auto. congruence.
       + intros _ Hv. apply G8'; auto. congruence.
+      + intros _ Hv Hb. apply Gu; auto. congruence.
       + intros _ Hb Hp. apply G10; auto. congruence.
   Qed.
 
